@@ -1114,6 +1114,10 @@ class RTCSctpTransport(AsyncIOEventEmitter):
         """
         Handle a DATA chunk.
         """
+        # ignore data received before the peer's initial TSN is known
+        if self._last_received_tsn is None:
+            return
+
         self._sack_needed = True
 
         # mark as received
@@ -1134,6 +1138,10 @@ class RTCSctpTransport(AsyncIOEventEmitter):
         """
         Handle a FORWARD TSN chunk.
         """
+        # ignore chunks received before the peer's initial TSN is known
+        if self._last_received_tsn is None:
+            return
+
         self._sack_needed = True
 
         # it's a duplicate
